@@ -80,6 +80,13 @@ def one_history(rep, rng, dev, hid):
                                  save_every=rng.choice([1, 2, 3, 5, 1000]),     # the rule must not see the save interval
                                  # ... nor the screening iterations (one recorded value per solve step, not per iteration)
                                  **(dict(include_screening=True, screening_tolerance=1e-2) if screening else {}))
+        try:
+            TDGLSolver(dev, opts, applied_vector_potential=0.4, terminal_currents={"source": 2.0, "drain": -2.0})
+        except Exception as e:  # noqa: BLE001
+            rep.violation(f"valid time-step options (0 < dt_init <= dt_max) were refused: {type(e).__name__}: {e}"[:240],
+                          {k: cfg[k] for k in ("adaptive", "dt_init", "dt_max", "window", "mult", "max_retries")})
+            cfg["skip_model"] = True
+            return cfg, [], None
         if rng.random() < 0.3:
             # history form: ONE options object used before with the other setting of the adaptive switch (validated, handed to
             # a solver), then only the switch is changed and the object is used again - every other field must still count
